@@ -65,6 +65,7 @@ type c18SrvObs struct {
 	host, reqURI  string
 	header        http.Header
 	contentLength int64
+	declaredCL    int64 // the Content-Length field the handler sees, -1 if none
 	body          []byte
 	bodyErr       error // nil: clean io.EOF
 	bodyDone      bool
@@ -81,6 +82,7 @@ type c18CliObs struct {
 	status        int
 	header        http.Header
 	contentLength int64
+	declaredCL    int64 // the Content-Length field the client sees, -1 if none
 	body          []byte
 	bodyErr       error // nil: clean io.EOF
 	bodyDone      bool
@@ -191,6 +193,19 @@ func c18ReadAll(r io.Reader, bufSize int) (data []byte, err error, zeroReads int
 	}
 }
 
+// c18HeaderCL is the Content-Length field of a received message (-1: none / unparsable).
+func c18HeaderCL(h http.Header) int64 {
+	v := h.Get("Content-Length")
+	if v == "" {
+		return -1
+	}
+	n, err := strconv.ParseInt(v, 10, 64)
+	if err != nil || n < 0 {
+		return -1
+	}
+	return n
+}
+
 func cloneHeader(h http.Header) http.Header {
 	if h == nil {
 		return nil
@@ -228,6 +243,7 @@ func (x *c18Exec) ServeHTTP(w http.ResponseWriter, r *http.Request) {
 	o.method, o.path, o.query, o.host, o.reqURI = r.Method, r.URL.Path, r.URL.RawQuery, r.Host, r.RequestURI
 	o.header = cloneHeader(r.Header)
 	o.contentLength = r.ContentLength
+	o.declaredCL = c18HeaderCL(r.Header)
 	if m.Abort == 1 {
 		x.signalStarted(idx)
 	}
@@ -428,6 +444,7 @@ func (x *c18Exec) request(parent context.Context, client *http.Client, idx int, 
 	o.status = resp.StatusCode
 	o.header = cloneHeader(resp.Header)
 	o.contentLength = resp.ContentLength
+	o.declaredCL = c18HeaderCL(resp.Header)
 	if m.Abort == 2 {
 		resp.Body.Close()
 		close(x.aborted[idx])
@@ -701,19 +718,19 @@ func (x *c18Exec) judge() {
 		respPlain := c18Data(c18RespSeed(idx), m.respSize())
 
 		// ---- receiver-side Content-Length agreement (always)
-		if so.calls > 0 && so.bodyDone && so.contentLength >= 0 {
-			if int64(len(so.body)) > so.contentLength {
-				x.fail("long-body-silent:request", "%s: handler read %d body bytes although the request declared Content-Length %d", tag, len(so.body), so.contentLength)
-			} else if so.bodyErr == nil && int64(len(so.body)) < so.contentLength {
-				x.fail("short-body-silent-eof:request", "%s: handler's Request.Body ended in plain io.EOF after %d bytes although the request declared Content-Length %d (silent truncation)", tag, len(so.body), so.contentLength)
+		if so.calls > 0 && so.bodyDone && so.declaredCL >= 0 {
+			if int64(len(so.body)) > so.declaredCL {
+				x.fail("long-body-silent:request", "%s: handler read %d body bytes although the request declared Content-Length %d", tag, len(so.body), so.declaredCL)
+			} else if so.bodyErr == nil && int64(len(so.body)) < so.declaredCL {
+				x.fail("short-body-silent-eof:request", "%s: handler's Request.Body ended in plain io.EOF after %d bytes although the request declared Content-Length %d (silent truncation)", tag, len(so.body), so.declaredCL)
 			}
 		}
 		clientBodyExpected := m.method() != "HEAD" && co.status != 204 && co.status != 304
-		if co.err == nil && co.bodyDone && co.contentLength >= 0 && clientBodyExpected {
-			if int64(len(co.body)) > co.contentLength {
-				x.fail("long-body-silent:response", "%s: client read %d body bytes although the response declared Content-Length %d", tag, len(co.body), co.contentLength)
-			} else if co.bodyErr == nil && int64(len(co.body)) < co.contentLength {
-				x.fail("short-body-silent-eof:response", "%s: Response.Body ended in plain io.EOF after %d bytes although the response declared Content-Length %d (silent truncation)", tag, len(co.body), co.contentLength)
+		if co.err == nil && co.bodyDone && co.declaredCL >= 0 && clientBodyExpected {
+			if int64(len(co.body)) > co.declaredCL {
+				x.fail("long-body-silent:response", "%s: client read %d body bytes although the response declared Content-Length %d", tag, len(co.body), co.declaredCL)
+			} else if co.bodyErr == nil && int64(len(co.body)) < co.declaredCL {
+				x.fail("short-body-silent-eof:response", "%s: Response.Body ended in plain io.EOF after %d bytes although the response declared Content-Length %d (silent truncation)", tag, len(co.body), co.declaredCL)
 			}
 		}
 
